@@ -72,7 +72,7 @@ func main() {
 		fmt.Fprintln(os.Stderr, err)
 		os.Exit(2)
 	}
-	ld, err := interp.Load(*repo, ov, "verif", "./...")
+	ld, err := interp.Load(*repo, ov, "verif,purego", "./...")
 	if err != nil {
 		fmt.Fprintln(os.Stderr, err)
 		os.Exit(2)
